@@ -1,0 +1,31 @@
+//go:build verif
+
+package uhppote
+
+import (
+	"net"
+	"time"
+
+	"github.com/uhppoted/uhppote-core/types"
+)
+
+// Driver is the transport interface used by the API layer (verification hook).
+type Driver = driver
+
+// NewWithDriver constructs a client around a caller-supplied transport driver: 'wrap' receives the
+// real UT0311 driver and returns the driver the client is to use (verification hook).
+func NewWithDriver(bindAddr types.BindAddr, broadcastAddr types.BroadcastAddr, listenAddr types.ListenAddr, timeout time.Duration, devices []Device, debug bool, wrap func(Driver) Driver) IUHPPOTE {
+	u := NewUHPPOTE(bindAddr, broadcastAddr, listenAddr, timeout, devices, debug).(*uhppote)
+	u.driver = wrap(u.driver)
+	return u
+}
+
+// IsWiegand26 exposes the unexported card-number format predicate (verification hook).
+func IsWiegand26(card uint32) bool {
+	return isWiegand26(card)
+}
+
+// Resolve exposes the unexported broadcast address resolution (verification hook).
+func Resolve(address types.BroadcastAddr) *net.UDPAddr {
+	return resolve(address)
+}
